@@ -1,27 +1,27 @@
 """Per-property claims for MANIFEST.json (what each check proves, what it assumes)."""
-BASE_NOTE = ("trusted: the pyvc encoder of Python semantics, z3; assumed: contract of concurrent.futures.Future (Appendix D), "
+BASE_NOTE = ("trusted: the pyvc encoder of Python semantics, z3; the model of concurrent.futures.Future is checked against its CPython source on every run (contracts/c_stdlib.py), the rest of the stdlib is assumed as modelled (A-STDLIB); assumed: "
              "abstract FUT/EXEC contracts of delegates, A-GIL, A-EXC, A-TRUTHY, A-LOG, A-NOPATCH, A-DUCK")
 CLAIMED = {
     "C13": {"text": "map_spec / flat_map two-stage contract of MapFuture._delegate_resolved proved for every concrete receiver class, all "
                     "input outcomes, all behaviours of fn/error_fn (uninterpreted, may raise, may re-enter), under interference by other "
                     "threads (user cancel at any point); call counts, argument identity, exception-object identity, TypeError on non-future",
-            "note": BASE_NOTE + "; chain composition (map g then h = map h.g) follows from the per-stage spec by LEM(compose), stated not mechanised",
+            "note": BASE_NOTE + "; chain composition (map g then h = map h.g) follows from the per-stage spec by LEM(compose), mechanised over the stage contract with uninterpreted, possibly raising functions (static group lemma-compose); futures.base.wrap, ensure_future and copy_exception / copy_future_exception are under contract",
             "design_ref": "DESIGN.md section 5 C13"},
     "C14": {"text": "and/or step contract of BoolOperation.handle_done for both operations (decide iff step, outcome object identity, done "
                     "flag under the lock, cancel fan-out list = remaining inputs (+output when cancelled), one cancel() per element), "
                     "registration loop of __init__ incl. late-binding of the forwarding closure, lock discipline of the BoolLock region",
-            "note": BASE_NOTE + "; the fold over the lock order is LEM(fold): the region invariant is the induction hypothesis (stated); bool() of user values is an observation at decision time",
+            "note": BASE_NOTE + "; the fold over the lock order is LEM(fold), mechanised as a simulation between the iterated per-callback contract and the left fold, with negative controls (static group lemma-fold); bool() of user values is an observation at decision time",
             "design_ref": "DESIGN.md section 5 C14"},
     "C15": {"text": "ZipLock region invariant (positions, counter = n - card(filled)) preserved by Zipper.handle_done; first failure / first "
                     "cancellation decides once; result tuple has every input's value at its own position; maketuple total for every length",
-            "note": BASE_NOTE + "; finite-set cardinality axioms (card) trusted; TUPLE_CLASSES module initialisation shape checked syntactically; f_traverse/f_sequence wrappers not yet under contract",
+            "note": BASE_NOTE + "; finite-set cardinality axioms (card) trusted; TUPLE_CLASSES module initialisation shape checked syntactically; f_zip / f_sequence / f_traverse wrappers under contract; the induction over positions (LEM(fold) for Zipper) is stated",
             "design_ref": "DESIGN.md section 5 C15"},
     "C01": {"text": "per-layer outcome contracts proved for every layer's real code (Map/FlatMap _delegate_resolved, Retry _delegate_callback/_submit_now/"
                     "submit_retry, Poll _register_poll/_run_poll_fn/_delegate_resolved, Throttle _do_submit/submit, Timeout submit_timeout, CancelOnShutdown "
                     "submit, transparent delegation for the *Future subclasses): each layer's future takes exactly its delegate's outcome object / the "
                     "user function's outcome, the callable gets exactly the submitted arguments, one resolution per future (set_* units), callbacks "
                     "exactly once (add_done_callback / _me_invoke_callbacks); with_* / bind units show a chain is the nesting of these layers",
-            "note": BASE_NOTE + "; the theorem about a whole stack is the composition of the per-layer contracts (LEM(compose), DESIGN A.3) - stated, not mechanised; the sync / thread-pool base is stdlib code under the assumed EXEC contract",
+            "note": BASE_NOTE + "; the theorem about a whole stack is the composition of the per-layer contracts (LEM(compose), DESIGN A.3) - mechanised for map stages, stated for the other layers; the sync / thread-pool base is stdlib code under the assumed EXEC contract",
             "design_ref": "DESIGN.md section 5 C01"},
     "C02": {"text": "Future protocol of every _Future subclass proved on the real cancel / add_done_callback / _me_invoke_callbacks / set_result / "
                     "set_exception for each concrete receiver class: state transitions only under _me_lock and only PENDING->terminal (static), "
